@@ -9,7 +9,7 @@ use refmodel::sgr::{self, SgrState, UlMode};
 
 /// Representative attribute groups for the exhaustive part: (text, underline class).
 /// underline class: 0 = not underline related, 1 = plain on, 2..5 = style n, 9 = 4:0 (off)
-pub const GROUPS: [(&str, u8); 40] = [
+pub const GROUPS: [(&str, u8); 44] = [
     ("0", 0),
     ("", 0),
     ("1", 0),
@@ -50,6 +50,11 @@ pub const GROUPS: [(&str, u8); 40] = [
     ("58;2;0;128;255", 0),
     ("26", 0),
     ("99", 0),
+    // colon-form colour groups cut short: a self-delimited group without a representation, changes nothing
+    ("38:2:10:20", 0),
+    ("58:2:7", 0),
+    ("48:5", 0),
+    ("38:2", 0),
 ];
 
 /// DESIGN 8.4: within one reset epoch at most one underline style; 4:0 only when the current style is plain / none.
@@ -208,6 +213,36 @@ pub fn run(cfg: &Cfg) -> Stats {
             }
             idx += n;
         }
+        // sequences that never reach a dispatch, or reach it in an overflowed state, followed by an ordinary SGR sequence:
+        // 31..=40 parameters / 0..=4 intermediates, left open or finished, then aborted by ESC / CAN / SUB / nothing
+        if shard == 0 {
+            for nparams in [1usize, 16, 31, 32, 33, 34, 40] {
+                for ninter in 0..=4usize {
+                    for finish in ["", "m", "q"] {
+                        for abort in ["", "\x1b", "\x18", "\x1a", "\x1b\x1b"] {
+                            for intro in ["\x1b[", "\x1bP"] {
+                                let mut d = b"a".to_vec();
+                                d.extend_from_slice(intro.as_bytes());
+                                for i in 0..nparams {
+                                    if i > 0 {
+                                        d.push(if i % 5 == 4 { b':' } else { b';' });
+                                    }
+                                    d.push(b'1');
+                                }
+                                d.extend(std::iter::repeat(b' ').take(ninter));
+                                d.extend_from_slice(finish.as_bytes());
+                                d.extend_from_slice(abort.as_bytes());
+                                if intro == "\x1bP" && !abort.contains('\x1b') && abort != "\x18" && abort != "\x1a" {
+                                    d.extend_from_slice(b"\x1b\\"); // close the device control string
+                                }
+                                d.extend_from_slice(b"\x1b[31mred\x1b[4;44mx\x1b[0my");
+                                eval(&d, &[], &mut st, true, "aborted-or-overflowed-sequence");
+                            }
+                        }
+                    }
+                }
+            }
+        }
         // every colour value: all 256 indices and all 256 values of each RGB component, for each target and spelling
         let mut kk = 0u64;
         for target in [38u32, 48, 58] {
@@ -278,6 +313,7 @@ pub fn run(cfg: &Cfg) -> Stats {
         }
         st
     });
+    st.exhaustive_parts.push("CSI / DCS sequences with 1..40 parameters x 0..4 intermediates, left open / finished, aborted by ESC / CAN / SUB / nothing, followed by ordinary SGR sequences".into());
     st.exhaustive_parts.push("all 256 indexed values and all 256 values of each RGB component for fg / bg / underline colour in both ';' and ':' spellings".into());
     st.exhaustive_parts.push(format!(
         "all single SGR sequences of <= {depth} attribute groups over a {}-group representative set, from 3 start states (sequences selecting two underline styles in one epoch excluded, DESIGN 8.4)",
